@@ -24,9 +24,11 @@ def t1(sx, hr, size, prefix, rsv, oldlens, lens, long):
     return ndefflow.roundtrip(sx, w, n)
 
 
-def t3(sx, nbr, nbw, nmaxb, oldlens, lens, emulated):
+def t3(sx, nbr, nbw, nmaxb, oldlens, lens, emulated, ic_code=0xEE):
     oldlen = sx.pick("oldlen", [o for o in oldlens if o <= nmaxb * 16])
-    w = worlds.T3World(sx, nbr, nbw, nmaxb, oldlen, emulated=emulated)
+    w = worlds.T3World(sx, nbr, nbw, nmaxb, oldlen, emulated=emulated, ic_code=ic_code)
+    if ic_code != 0xEE:
+        sx.reach("felica_vendor_class")
     n = sx.pick("n", [x for x in lens_for(w.cap, lens)])
     return ndefflow.roundtrip(sx, w, n)
 
@@ -135,6 +137,11 @@ def partitions(tier):
                               fn="t3", params=dict(nbr=nbr, nbw=nbw, nmaxb=nmaxb, oldlens=[0, 5, 17],
                                                    lens=[0, 1, 15, 16, 17, 32, "cap-1", "cap", "cap+1"],
                                                    emulated=emulated)))
+    # FeliCa Lite / Lite-S vendor classes (from the IC code in the polling response)
+    for ic in (0xF0, 0xF1):
+        parts.append(dict(name="t3:felica-lite:%02x" % ic, fn="t3",
+                          params=dict(nbr=4, nbw=1, nmaxb=13, oldlens=[0, 17], emulated=False,
+                                      lens=[0, 1, 16, 17, "cap-1", "cap", "cap+1"], ic_code=ic)))
     # ---- Type 4: MLe, MLc symbolic over their whole valid range (one at a
     # time for the large file; both for the small one)
     small = [(0x20, "A", 8), (0x30, "B", 5), (0x20, "A", 2)]
@@ -160,7 +167,7 @@ def partitions(tier):
 MUST_REACH = ["oversize_rejected", "empty_message_written", "three_byte_length",
               "message_fills_capacity", "rsv_inside_message", "rsv_before_ndef_tlv",
               "rsv_beyond_data_area", "rsv_at_end_of_data_area", "rsv_after_message",
-              "t1_message_spans_reserved_blocks", "nxp_vendor_class"]
+              "t1_message_spans_reserved_blocks", "nxp_vendor_class", "felica_vendor_class"]
 BOUNDS = {"quick": "T2: data areas 48/496 bytes, 13 control-TLV layouts, boundary message lengths; all contents symbolic",
           "thorough": "T2: data areas 48 (every length)/496/872/2032"}
 OUTSIDE = ["data area sizes other than listed", "more than one lock- and one memory-control TLV"]
